@@ -2361,6 +2361,11 @@ def transport_conditional_counterfactual_query(
         domain_data=domain_data,
     )
 
+    # The ancestral sets are made of minimized variables (||Y_x||), so the outcomes and
+    # conditions have to be compared with them in minimized form as well.
+    outcomes = minimize_event(event=outcomes, graph=target_domain_graph)
+    conditions = minimize_event(event=conditions, graph=target_domain_graph)
+
     # Initialize data structures
     (
         conditioned_variables,
